@@ -471,3 +471,33 @@ def t16_type_checking_cycle() -> Iterator[Dict[str, Any]]:
                        mod("_core", 1, ops=flat({**frm("_ext", "D", lvl=1), "tc": True}, cls("X", body=[fn("spawn")]))),
                        mod("_ext", 1, ops=flat(src, cls("D", "X", body=[var("level")]), cls("E", "D", body=[var("more")])))],
                       "T16", via=via, cyclic=True)
+
+
+def t_c04_cycles() -> Iterator[Dict[str, Any]]:
+    """C04 with import cycles: what a name denotes depends on the module imported first; `entries` lists every order in which
+       the project can be imported (PyBind evaluates each, those in which the interpreter raises are discarded)."""
+    def with_entries(p: Dict[str, Any]) -> Dict[str, Any]:
+        n = len(p["mods"])
+        perms = [list(x) for x in itertools.permutations(range(1, n + 1))] if n <= 4 else \
+                [list(range(k, n + 1)) + list(range(1, k)) for k in range(1, n + 1)] + [list(range(n, 0, -1))]
+        p["entries"] = perms
+        return p
+    # a star import of a module that is still being executed copies the names bound SO FAR
+    yield with_entries(project([mod("shapes", pkg=True),
+                                mod("base", 1, ops=flat(cls("Shape"), frm("", "registry", lvl=1), cls("Polygon", "Shape"), fn("area"))),
+                                mod("registry", 1, ops=flat(star("base", lvl=1))),
+                                mod("draw", 1, ops=flat(star("base", lvl=1), cls("Square", "Polygon")))], "C04c", shape="star-of-partial-module", cyclic=True))
+    yield with_entries(project([mod("shapes", pkg=True),
+                                mod("base", 1, ops=flat(cls("Shape"), frm("", "registry", lvl=1), cls("Polygon", "Shape"))),
+                                mod("legacy", 1, ops=flat(cls("Polygon"))),
+                                mod("registry", 1, ops=flat(star("base", lvl=1))),
+                                mod("migrate", 1, ops=flat(frm("legacy", "Polygon", lvl=1), star("base", lvl=1), cls("New", "Polygon")))],
+                               "C04c", shape="star-overrides-earlier-import", cyclic=True))
+    # the classic two-module cycle, late and early imports
+    for late in (False, True):
+        a_ops = flat(cls("A"), frm("b", "B", lvl=1), cls("A2", "B")) if late else flat(frm("b", "B", lvl=1), cls("A"), cls("A2", "B"))
+        yield with_entries(project([mod("p", pkg=True), mod("a", 1, ops=a_ops), mod("b", 1, ops=flat(cls("B"), frm("a", "A", lvl=1), cls("B2", "A"))),
+                                    mod("u", 1, ops=flat(frm("a", "A2", lvl=1), frm("b", "B2", lvl=1), cls("U", "A2", "B2")))], "C04c", shape="two-module-cycle", late=late, cyclic=True))
+    # module objects exchanged in a cycle (always importable): attribute access happens later, in class bases of a third module
+    yield with_entries(project([mod("p", pkg=True), mod("a", 1, ops=flat(frm("", "b", lvl=1), cls("A"))), mod("b", 1, ops=flat(frm("", "a", lvl=1), cls("B"))),
+                                mod("u", 1, ops=flat(frm("", "a", lvl=1), frm("", "b", lvl=1), cls("U", "a.A", "b.B"), cls("V", "a.b.B", "b.a.A")))], "C04c", shape="module-cycle", cyclic=True))
